@@ -10,9 +10,9 @@ use serde_json::{json, Value};
 use sourcemap::{decode_slice, DecodedMap, RewriteOptions, SourceMap};
 use std::collections::{BTreeMap, BTreeSet};
 
-const SRC_POOL: [&str; 5] = ["dir/a.js", "dir/b.js", "/abs/c.js", "d.js", "dirx/e.js"];
-const PREFIX_SETS: [&[&str]; 6] = [&[], &["dir"], &["dir/"], &["/abs", "dir"], &["nomatch"], &["d"]];
-const ROOTS: [Option<&str>; 3] = [None, Some("dir"), Some("r/")];
+const SRC_POOL: [&str; 7] = ["dir/a.js", "dir/b.js", "/abs/c.js", "d.js", "dirx/e.js", "é→/dir/f.js", "/abs/dir/g.js"];
+const PREFIX_SETS: [&[&str]; 7] = [&[], &["dir"], &["dir/"], &["/abs", "dir"], &["nomatch"], &["d"], &["é→", "é"]];
+const ROOTS: [Option<&str>; 4] = [None, Some("dir"), Some("r/"), Some("/")];
 
 #[derive(Clone, Debug, Serialize, Deserialize)]
 struct Opts {
@@ -255,11 +255,11 @@ pub fn run(run: &mut Run) -> Finish {
     let tier = run.ctx.tier;
     let maxs = tier.pick(3usize, 4);
     let maxt = tier.pick(3usize, 4);
-    let nlists = n_seq_upto(5, maxs);
+    let nlists = n_seq_upto(7, maxs);
     // slice A: structure
-    run.par_slice("A: every source list of length <= 3/4 over a 5-name pool (duplicates, unreferenced entries) x every assignment of <= 3/4 tokens to {no source} + sources (every first-use order) x every contents mask x names on/off x contents on/off, raw constructor and decoded", 1, nlists, |idx, l| {
+    run.par_slice("A: every source list of length <= 3/4 over a 7-name pool (one with multi-byte characters, one that two prefixes of a set could strip in turn) (duplicates, unreferenced entries) x every assignment of <= 3/4 tokens to {no source} + sources (every first-use order) x every contents mask x names on/off x contents on/off, raw constructor and decoded", 1, nlists, |idx, l| {
         let k = idx & ((1 << 40) - 1);
-        let srcs = seq_upto_unrank(5, maxs, k);
+        let srcs = seq_upto_unrank(7, maxs, k);
         let ns = srcs.len();
         let mut sub = 0u64;
         for nt in 0..=maxt {
@@ -288,10 +288,10 @@ pub fn run(run: &mut Run) -> Finish {
         }
     });
     // slice B: prefixes x roots
-    run.par_slice("B: every source list x 3 roots x 6 prefix sets x {sources used in order, in reverse order, first only} x names/contents on/off, contents on every source", 2, nlists * 3 * 6, |idx, l| {
+    run.par_slice("B: every source list x 4 roots x 7 prefix sets x {sources used in order, in reverse order, first only} x names/contents on/off, contents on every source", 2, nlists * 4 * 7, |idx, l| {
         let k = idx & ((1 << 40) - 1);
-        let d = mixed_radix(k, &[6, 3, nlists]);
-        let srcs = seq_upto_unrank(5, maxs, d[2]);
+        let d = mixed_radix(k, &[7, 4, nlists]);
+        let srcs = seq_upto_unrank(7, maxs, d[2]);
         let ns = srcs.len();
         let orders: Vec<Vec<usize>> = vec![(1..=ns).collect(), (1..=ns).rev().collect(), (1..=ns.min(1)).collect()];
         let mut sub = 0;
